@@ -244,6 +244,9 @@ Inductive represents (h : heap) (s : src) : input -> option ast -> option si -> 
 | RAst : forall i, store h i = Some (OAst (parse s)) -> represents h s (IAst src i) (Some (parse s)) None
 | RRes : forall r ia pid s0, store h r = Some (ORes (Some ia) pid) -> store h ia = Some (OAst (parse s)) ->
     store h pid = Some (OProto (to_core (parse s)) s0) -> represents h s (IRes src r) (Some (parse s)) s0
+(* a parse result that wraps a descriptor proto and has no AST (parser.ResultWithoutAST) *)
+| RResNoAst : forall r pid s0, store h r = Some (ORes None pid) ->
+    store h pid = Some (OProto (to_core (parse s)) s0) -> represents h s (IRes src r) None s0
 | RProto : forall p s0, store h p = Some (OProto (to_core (parse s)) s0) ->
     represents h s (IProto src p) None s0.
 
@@ -255,12 +258,14 @@ Lemma compile_file_spec : forall h s inp a s0 deps mode,
     /\ wfh h' /\ extends h h'.
 Proof.
   intros h s inp a s0 deps mode W R. unfold Forms.compile_file.
-  destruct R as [| i Hi | r ia pid s0 Hr Hia Hp | p s0 Hp].
+  destruct R as [| i Hi | r ia pid s0 Hr Hia Hp | r pid s0 Hr Hp | p s0 Hp].
   - destruct (as_parse_result_source h s W) as (rid & h1 & ia & Heq & F). rewrite Heq.
     apply (finish_fresh _ _ _ _ _ _ _ deps mode F).
   - destruct (as_parse_result_ast h i _ W Hi) as (rid & h1 & Heq & F). rewrite Heq.
     apply (finish_fresh _ _ _ _ _ _ _ deps mode F).
   - destruct (as_parse_result_res h r (Some ia) pid _ s0 (Some (parse s)) W Hr Hp Hia) as (rid & h1 & Heq & F).
+    rewrite Heq. apply (finish_fresh _ _ _ _ _ _ _ deps mode F).
+  - destruct (as_parse_result_res h r None pid _ s0 None W Hr Hp I) as (rid & h1 & Heq & F).
     rewrite Heq. apply (finish_fresh _ _ _ _ _ _ _ deps mode F).
   - destruct (as_parse_result_proto h p _ s0 W Hp) as (rid & h1 & Heq & F). rewrite Heq.
     apply (finish_fresh _ _ _ _ _ _ _ deps mode F).
@@ -270,10 +275,11 @@ Lemma represents_extends : forall h h' s inp a s0, wfh h -> extends h h' ->
   represents h s inp a s0 -> represents h' s inp a s0.
 Proof.
   intros h h' s inp a s0 W [_ E] R.
-  destruct R as [| i Hi | r ia pid s1 Hr Hia Hp | p s1 Hp].
+  destruct R as [| i Hi | r ia pid s1 Hr Hia Hp | r pid s1 Hr Hp | p s1 Hp].
   - constructor.
   - constructor. rewrite E; [exact Hi | eapply stored_below_next; eauto].
   - econstructor; (rewrite E; [eassumption | eapply stored_below_next; eauto]).
+  - eapply RResNoAst; (rewrite E; [eassumption | eapply stored_below_next; eauto]).
   - constructor. rewrite E; [exact Hp | eapply stored_below_next; eauto].
 Qed.
 
